@@ -199,6 +199,65 @@ pub enum Twin {
     O,
 }
 
+/// byte-mode lexer whose callback bumps (possibly exactly to the end of the input)
+#[derive(Logos, Debug, Clone, PartialEq)]
+#[logos(utf8 = false, extras = u32)]
+#[logos(skip " ")]
+pub enum MB {
+    #[regex("u", |lex| { let k = lex.remainder().iter().take_while(|b| **b == b'u').count(); lex.bump(k); lex.extras += 1; k })]
+    U(usize),
+    #[regex("s", |lex| { let k = lex.remainder().iter().take_while(|b| **b == b's').count(); lex.bump(k); logos::Skip })]
+    S,
+    #[token("a")]
+    A,
+}
+
+/// expected items of MB: (Debug string, start, end)
+fn reference_mb(input: &[u8]) -> Vec<(String, usize, usize)> {
+    let mut v = vec![];
+    let mut p = 0;
+    while p < input.len() {
+        match input[p] {
+            b' ' => p += 1,
+            b'a' => {
+                v.push(("Ok(A)".to_string(), p, p + 1));
+                p += 1;
+            }
+            c @ (b'u' | b's') => {
+                let mut e = p + 1;
+                while e < input.len() && input[e] == c {
+                    e += 1;
+                }
+                if c == b'u' {
+                    v.push((format!("Ok(U({}))", e - p - 1), p, e));
+                }
+                p = e;
+            }
+            _ => {
+                v.push(("Err(())".to_string(), p, p + 1));
+                p += 1;
+            }
+        }
+    }
+    v
+}
+
+fn observe_mb(input: &[u8]) -> Vec<(String, usize, usize)> {
+    let r = std::panic::catch_unwind(|| {
+        let mut lex = Lexer::<MB>::new(input);
+        let mut items = vec![];
+        while let Some(r) = lex.next() {
+            let sp = lex.span();
+            items.push((format!("{r:?}"), sp.start, sp.end));
+            if items.len() > input.len() + 2 {
+                break;
+            }
+        }
+        items
+    });
+    r.unwrap_or_else(|_| vec![("PANIC".to_string(), 0, 0)])
+}
+
 // ---------------------------------------------------------------- the boring reference
 #[derive(Clone, Copy, PartialEq)]
 pub enum Which {
@@ -402,6 +461,26 @@ pub fn run(tier: &str, rep: &mut Report) {
             check(rep, "M", &s, observe::<M>(&s), reference(&s, Which::Named), &mut digest);
         }
     }
+    // bump from callbacks on a byte source, including bumps that end exactly at the end of input
+    std::panic::set_hook(Box::new(|_| {}));
+    let mut mb_runs = 0u64;
+    strings(&["u", "s", "a", " ", "x"], l + 3, &mut |s| {
+        mb_runs += 1;
+        let got = observe_mb(s.as_bytes());
+        let want = reference_mb(s.as_bytes());
+        if got != want && rep.violations.len() < 12 {
+            rep.violations.push(Violation {
+                key: format!("CALLBACK-BUMP/{s}"),
+                tag: "CALLBACK-BUMP".into(),
+                case: format!("enum MB (utf8 = false), input {s:?}"),
+                detail: format!("items {got:?}, expected {want:?}"),
+                replay: serde_json::json!({"kind": "vderive", "prop": "C13", "enum": "MB", "input": s, "tag": "CALLBACK-BUMP"}),
+            });
+        }
+    });
+    let _ = std::panic::take_hook();
+    rep.count("evaluations", mb_runs);
+    rep.count("traces_validated_against_impl", mb_runs);
     // Skip from a callback == skip pattern
     let mut twin_runs = 0u64;
     strings(&twin_alpha, l + 2, &mut |s| {
@@ -433,6 +512,7 @@ pub fn replay(rec: &serde_json::Value, rep: &mut Report) {
     let bad = match r["enum"].as_str().unwrap_or("") {
         "M" => observe::<M>(input) != reference(input, Which::Named),
         "C" => observe::<C>(input) != reference(input, Which::Closures),
+        "MB" => observe_mb(input.as_bytes()) != reference_mb(input.as_bytes()),
         _ => observe::<M>(input).0 != observe::<Twin>(input).0,
     };
     if bad {
